@@ -467,6 +467,43 @@ def B3_assign_pipeline(repo, clause):
                 raise _U("comparison")
         raise _U(type(e).__name__)
     verdict, why = None, "selection predicate of delete_if_all_in_set not recognised"
+    if pred is None:
+        # vectorised form: a row mask computed from the whole array (np.isin ... .all(axis=1)) selects the rows that are kept (arr[mask]) or removed (np.delete / arr[~mask]).
+        # The function body is evaluated on a small matrix of abstract rows against the set {in, in2}.
+        from .common import eval_small, Undecidable, Mat, Vec
+        rets_v = sorted([n for n in d.own_nodes() if isinstance(n, ast.Return) and n.value is not None], key=lambda n: n.lineno)
+        rows = [("in", "in2"), ("in", "out"), ("out", "out2"), ("in2", "in"), ("out", "in")]
+        want_deleted = [all(x in ("in", "in2") for x in r) for r in rows]
+        try:
+            if not rets_v:
+                raise Undecidable("no return")
+            rv = expand(d, rets_v[-1].value)
+            env0 = {arr_p: Mat(Vec(r) for r in rows), set_p: frozenset(("in", "in2"))}
+            kept = None
+            if isinstance(rv, ast.Subscript) and ast.unparse(expand(d, rv.value)) in (arr_p, "np.asarray(%s)" % arr_p, "np.array(%s)" % arr_p):
+                m = eval_small(rv.slice, env0)
+                if isinstance(m, Vec) and len(m) == len(rows) and all(isinstance(x, bool) for x in m):
+                    kept = [bool(x) for x in m]
+                elif isinstance(m, tuple) and all(isinstance(x, int) and not isinstance(x, bool) for x in m):
+                    kept = [i in m for i in range(len(rows))]
+            elif isinstance(rv, ast.Call) and call_name(rv) == "delete" and len(rv.args) >= 2:
+                m = eval_small(rv.args[1], env0)
+                if isinstance(m, Vec) and all(isinstance(x, bool) for x in m):
+                    kept = [not x for x in m]
+                elif isinstance(m, tuple):
+                    kept = [i not in m for i in range(len(rows))]
+            if kept is None:
+                raise Undecidable("result is not a row selection of the argument")
+            deleted = [not k for k in kept]
+            badr = [rows[i] for i in range(len(rows)) if deleted[i] != want_deleted[i]]
+            verdict = not badr
+            anchor = rets_v[-1]
+            why = "row mask `%s` evaluated on five abstract rows: %s" % (ast.unparse(rv)[:60], "a row is removed exactly when all of its atoms are in the set" if not badr else
+                                                                         "WRONG for rows %s (a term with only SOME atoms in the exclusion set is removed, or one with all atoms in it is kept)" % badr)
+            flows_vec = True
+        except Undecidable as e_:
+            why = "selection of delete_if_all_in_set is outside the table language (%s)" % e_
+            flows_vec = False
     if pred is not None:
         rows = [(), ("in",), ("out",), ("in", "in2"), ("in", "out"), ("out", "out2")]
         try:
@@ -495,7 +532,7 @@ def B3_assign_pipeline(repo, clause):
             apps_ = [c for c in ast.walk(anchor) if isinstance(c, ast.Call) and isinstance(c.func, ast.Attribute) and c.func.attr == "append" and isinstance(c.func.value, ast.Name)]
             flows = bool(apps_) and isinstance(sel_arg, ast.Name) and sel_arg.id == apps_[0].func.value.id
         flows = flows and ast.unparse(dels[0].args[0]) == arr_p
-    if verdict is not None and not flows:
+    if verdict is not None and not flows and not (pred is None and locals().get("flows_vec")):
         verdict, why = None, why + "; but the selected rows are not (recognisably) what np.delete removes from the array"
     obs.append(Ob("B3", clause, d, anchor, verdict is True, "a term is excluded iff all of its atoms are in the exclusion set: " + why, slot="exclusion-quantifier",
                   positive=verdict is False, undecided=verdict is None))
